@@ -111,13 +111,23 @@ def useKeyspaceResult (rs : List UseRes) : Outcome :=
 
 /-! ## 3. The pool refiller -/
 
-/-- A connection as the node and the wire see it. `K` = `VerifiedKeyspaceName`. -/
+/-- Who waits for the answer of a `USE` that is in flight on a connection. -/
+inductive Waiter where
+  | task (tid : Nat)     -- the `conn.use_keyspace` future of a spawned use-keyspace task
+  | user                 -- a user statement `USE x` sent through `Session::query*` (session.rs:1465-1478)
+  deriving DecidableEq, Repr
+
+/-- A connection as the node and the wire see it. `K` = `VerifiedKeyspaceName`.
+`queue` is the wire: requests are written in submission order and the node executes the requests of one
+connection in order (the abstract server), so the head is what the node answers next. -/
 structure Conn (K : Type) where
   serverKs : Option K := none     -- keyspace the server has set for this connection
   acked : List K := []            -- ghost: every keyspace whose `USE` the server acknowledged here, oldest first
   broken : Bool := false          -- broken, or closed because the driver dropped it
   shard : Nat := 0                -- `ShardInfo.shard` (0 without shard info)
   sharder : Option Nat := none    -- `nr_shards` of the node as this connection's SUPPORTED said
+  queue : List (Waiter × K) := [] -- `USE` statements written on this connection and not yet answered, oldest first
+  userMark : Bool := false        -- ghost: a user-issued `USE` was written here after the newest task's own `USE`
 
 /-- What the server does with one `USE k` (the connection being alive). -/
 inductive SrvReply (K : Type) where
@@ -131,6 +141,7 @@ structure Task (K : Type) where
   id : Nat
   ks : K
   snapshot : List Nat                 -- `self.conns.clone()` at the time of the request (connection ids)
+  submitted : List Nat                -- connections on which the task's `USE` has been written
   results : List (Nat × UseRes)       -- per connection, once its `conn.use_keyspace` future resolved
   resp : Option Outcome               -- `response_sender.send(res)` happened (the task is finished)
 
@@ -144,29 +155,32 @@ structure Pool (K : Type) where
   -- `PoolRefiller`
   currentKs : Option K
   sharder : Option Nat
+  blocked : Bool                      -- `advanced_shard_awareness_blocked_until` is in the future (300 s)
   conns : List Nat                    -- `self.conns` flattened = `shared_conns` (updated in the same arm)
   excess : List Nat
   opening : Nat                       -- open futures in `ready_connections`
-  setting : List (Nat × K × Bool)     -- `start_setting_keyspace_for_connection` futures: (conn, ks, requested_shard?)
+  setting : List (Nat × K × Option Nat) -- `start_setting_keyspace_for_connection` futures: (conn, ks, requested shard)
   -- spawned use-keyspace tasks, newest first
   tasks : List (Task K)
-  overlap : Bool                      -- ghost: some `use_keyspace` request arrived while an earlier one was unanswered
+  overlap : Bool                      -- ghost: the NEWEST `use_keyspace` request arrived while an earlier one was unanswered
 
 def Pool.init {K : Type} (perShard : Bool) (target : Nat) (ks : Option K) : Pool K :=
-  { perShard, target, net := fun _ => {}, nextId := 0, currentKs := ks, sharder := none, conns := [],
-    excess := [], opening := 0, setting := [], tasks := [], overlap := false }
+  { perShard, target, net := fun _ => {}, nextId := 0, currentKs := ks, sharder := none, blocked := false,
+    conns := [], excess := [], opening := 0, setting := [], tasks := [], overlap := false }
 
 inductive Ev (K : Type) where
   | useKs (k : K)                                   -- the refiller receives a `UseKeyspaceRequest`
-  | taskUse (t i : Nat) (r : SrvReply K)            -- task `t`'s `USE` on its snapshot connection `i` resolves
+  | taskSubmit (t i : Nat)                          -- task `t` writes its `USE` on its snapshot connection `i`
+  | serve (i : Nat) (r : SrvReply K)                -- the node answers the oldest `USE` in flight on connection `i`
   | taskFinish (t : Nat)                            -- `join_all` done: answer with `use_keyspace_result`
-  | taskTimeout (t : Nat)                           -- `connect_timeout` elapsed first
+  | taskTimeout (t : Nat)                           -- `connect_timeout` elapsed first (what is in flight stays in flight)
   | refill                                          -- the scheduled refill fires: `start_filling`
-  | opened (shard : Nat) (sharder : Option Nat) (requested : Bool)   -- an open future resolves Ok
+  | opened (shard : Nat) (sharder : Option Nat) (requested : Option Nat)   -- an open future resolves Ok
   | openFailed (requested : Bool)                   -- an open future resolves Err(Connection)
   | ksSet (i : Nat) (r : SrvReply K)                -- the setting-keyspace future of connection `i` resolves
   | breakConn (i : Nat)                             -- connection `i` breaks (network / node)
   | connError (i : Nat)                             -- the refiller handles `i`'s error event: `remove_connection`
+  | userUse (i : Nat) (x : K)                       -- a user statement `USE x` is written on published connection `i`
 
 variable {K : Type} [DecidableEq K]
 
@@ -191,6 +205,9 @@ def Pool.needFilling (p : Pool K) : Bool := !p.isFilling && !p.isFull
 
 def Pool.excessLimit (p : Pool K) : Nat := if p.perShard then 10 * p.nShards else 0
 
+/-- `can_use_shard_aware_port` (the shard-aware port being advertised is the caller's business). -/
+def Pool.canUseShardAware (p : Pool K) : Bool := p.sharder.isSome && !p.blocked
+
 /-- Dropping a `Connection` value closes it. -/
 def Pool.close (p : Pool K) (i : Nat) : Pool K :=
   { p with net := setConn p.net i { p.net i with broken := true } }
@@ -205,19 +222,23 @@ def Pool.toOpen (p : Pool K) : Nat :=
 def Pool.maybeReshard (p : Pool K) (s : Option Nat) : Pool K :=
   if p.sharder = s then p else { p with sharder := s, conns := [], excess := [] }
 
-/-- The part of `handle_ready_connection`'s `Ok` branch after the keyspace test. -/
-def Pool.accept (p : Pool K) (i : Nat) (requested : Bool) : Pool K :=
+/-- The part of `handle_ready_connection`'s `Ok` branch after the keyspace test. `requested` = the shard the
+connection was opened for through the shard-aware port (`evt.requested_shard`; the sharder it was computed with
+is the pool's at that time - a reshard in between is not modelled as a mismatch). -/
+def Pool.accept (p : Pool K) (i : Nat) (requested : Option Nat) : Pool K :=
   let c := p.net i
+  -- landed on another shard than requested, same sharder: `block_advanced_shard_awareness`
+  let p := if requested.isSome && requested != some c.shard && p.sharder == c.sharder then { p with blocked := true } else p
   let p := p.maybeReshard c.sharder
   if p.canAccept c.shard then { p with conns := p.conns ++ [i] }
-  else if requested then { p.close i with opening := p.opening + 1 }
+  else if requested.isSome then { p.close i with opening := p.opening + 1 }
   else
     let p := { p with excess := p.excess ++ [i] }
     if p.excess.length > p.excessLimit then { p with excess := [] } else p
 
 /-- `handle_ready_connection`, `Ok` branch: a connection is published only if the event says it carries the
 current keyspace; otherwise it is sent through `start_setting_keyspace_for_connection`. -/
-def Pool.handleReady (p : Pool K) (i : Nat) (evKs : Option K) (requested : Bool) : Pool K :=
+def Pool.handleReady (p : Pool K) (i : Nat) (evKs : Option K) (requested : Option Nat) : Pool K :=
   match p.currentKs with
   | some k =>
     if evKs ≠ some k then { p with setting := p.setting ++ [(i, k, requested)] }
@@ -247,21 +268,44 @@ def Task.resultList (t : Task K) : List UseRes := t.snapshot.filterMap fun i => 
 def step (p : Pool K) : Ev K → Pool K
   | .useKs k =>
     -- `self.current_keyspace = Some(k)`; clone `conns`; spawn the task; an empty snapshot answers Ok at once
-    let t : Task K := { id := p.tasks.length, ks := k, snapshot := p.conns, results := [],
+    let t : Task K := { id := p.tasks.length, ks := k, snapshot := p.conns, submitted := [], results := [],
                         resp := if p.conns.isEmpty then some .ok else none }
     { p with currentKs := some k, tasks := t :: p.tasks,
-             overlap := p.overlap || p.tasks.any (fun t => t.resp.isNone) }
-  | .taskUse tid i r =>
+             overlap := p.tasks.any (fun t => t.resp.isNone) }
+  | .taskSubmit tid i =>
+    -- `conn.use_keyspace(..)` reaches `submit_channel.send(..)`: the statement is on the wire behind everything
+    -- written on this connection before; on a broken connection it fails at once
     match findTask p.tasks tid with
     | none => p
     | some t =>
-      if t.resp.isSome || !t.snapshot.contains i || (t.results.lookup i).isSome then p
+      if t.resp.isSome || !t.snapshot.contains i || t.submitted.contains i then p
       else if (p.net i).broken then
-        { p with tasks := modifyTask p.tasks tid fun t => { t with results := (i, .error .broken) :: t.results } }
+        { p with tasks := modifyTask p.tasks tid fun t =>
+            { t with submitted := i :: t.submitted, results := (i, .error .broken) :: t.results } }
       else
-        let (c, res) := serveUse (p.net i) t.ks r
-        { p with net := setConn p.net i c,
-                 tasks := modifyTask p.tasks tid fun t => { t with results := (i, res) :: t.results } }
+        let c := p.net i
+        let newest := p.tasks.head?.map (·.id) == some tid
+        { p with net := setConn p.net i { c with queue := c.queue ++ [(.task tid, t.ks)],
+                                                 userMark := if newest then false else c.userMark },
+                 tasks := modifyTask p.tasks tid fun t => { t with submitted := i :: t.submitted } }
+  | .serve i r =>
+    -- the node answers the oldest `USE` in flight on `i` (a broken connection fails it instead); the answer goes
+    -- to the task that still waits for it, otherwise it is dropped (orphaned stream / user query)
+    match (p.net i).queue with
+    | [] => p
+    | (w, k) :: rest =>
+      let c := p.net i
+      let (c', res) : Conn K × UseRes :=
+        if c.broken then (c, .error .broken) else serveUse c k r
+      let p := { p with net := setConn p.net i { c' with queue := rest } }
+      match w with
+      | .user => p
+      | .task tid =>
+        match findTask p.tasks tid with
+        | none => p
+        | some t =>
+          if t.resp.isSome || (t.results.lookup i).isSome then p
+          else { p with tasks := modifyTask p.tasks tid fun t => { t with results := (i, res) :: t.results } }
   | .taskFinish tid =>
     match findTask p.tasks tid with
     | none => p
@@ -305,6 +349,12 @@ def step (p : Pool K) : Ev K → Pool K
     if !(p.net i).broken then p
     else if p.conns.contains i then { p with conns := p.conns.filter (· ≠ i) }
     else { p with excess := p.excess.filter (· ≠ i) }
+  | .userUse i x =>
+    -- a request picked the published connection `i` and wrote the user's `USE x` on it
+    if p.conns.contains i && !(p.net i).broken then
+      let c := p.net i
+      { p with net := setConn p.net i { c with queue := c.queue ++ [(.user, x)], userMark := true } }
+    else p
 
 def run (p : Pool K) (evs : List (Ev K)) : Pool K := evs.foldl step p
 
@@ -327,7 +377,7 @@ structure Cluster (K : Type) where
   nNodes : Nat
   known : List Nat                    -- `cluster_state.known_nodes`
   fanouts : List (Fanout K)           -- newest first
-  overlap : Bool                      -- ghost: a use-keyspace request was handled while an earlier one was unanswered
+  overlap : Bool                      -- ghost: the NEWEST use-keyspace request was handled while an earlier one was unanswered
 
 def Cluster.init (perShard : Bool) (target : Nat) : Cluster K :=
   { usedKs := none, pools := fun _ => Pool.init perShard target none, nNodes := 0, known := [], fanouts := [],
@@ -370,7 +420,7 @@ def cstep (c : Cluster K) : CEv K → Cluster K
     let f : Fanout K := { id := c.fanouts.length, ks := k, nodes := c.known, sent := [],
                           resp := none }
     { c with usedKs := some k, fanouts := f :: c.fanouts,
-             overlap := c.overlap || c.fanouts.any (fun f => f.resp.isNone) }
+             overlap := c.fanouts.any (fun f => f.resp.isNone) }
   | .deliver fid n =>
     match c.fanouts.find? (·.id = fid) with
     | none => c
